@@ -202,9 +202,10 @@ def oracle(ctx):
         if abs(v - ref) > tol:
             ctx.fail("oracle", "quad:inf:" + name, {}, v, ref)
     t = quad(lambda x: (x * x, torch.stack([x, 2 * x]).reshape(2, 1)), torch.tensor(0.0, dtype=DT), torch.tensor(2.0, dtype=DT), n=5)
-    if not (isinstance(t, (tuple, list)) and abs(float(t[0]) - 8 / 3) < 1e-13 and t[1].shape == (2, 1) and
-            torch.allclose(t[1].reshape(-1), torch.tensor([2.0, 4.0], dtype=DT))):
-        ctx.fail("oracle", "quad:tuple", {}, t, "(8/3, [[2],[4]])")
+    if not (isinstance(t, (tuple, list)) and len(t) == 2 and t[0].shape == () and abs(float(t[0]) - 8 / 3) < 1e-13
+            and t[1].shape == (2, 1) and torch.allclose(t[1].reshape(-1), torch.tensor([2.0, 4.0], dtype=DT))):
+        ctx.fail("oracle", "quad:tuple", {"integrand": "(x^2, [[x],[2x]]) on [0, 2]"},
+                 [list(x.shape) for x in t] if isinstance(t, (tuple, list)) else str(type(t)), "shapes (), (2,1); values 8/3, [[2],[4]]")
     v32 = quad(lambda x: x * x, torch.tensor(0.0), torch.tensor(3.0), n=4)
     if v32.dtype != torch.float32 or abs(float(v32) - 9.0) > 1e-5:
         ctx.fail("oracle", "quad:float32", {}, v32, 9.0)
